@@ -208,6 +208,13 @@ impl Compactor {
 		}
 
 		writer.finish()?;
+
+		// The manifest is about to reference this table and the input tables are
+		// about to be deleted: make the table's contents durable first, as the
+		// memtable flush path does for the tables it writes.
+		let file = crate::vfs::open_for_sync(path)?;
+		file.sync_all()?;
+
 		Ok(true)
 	}
 
